@@ -33,6 +33,7 @@ type checkRun struct {
 	noNative  bool
 	race      bool
 	raceSeen  map[string]string // package dir -> first DATA RACE report of the native run
+	crashed   map[string]string // package dir -> crash text when the native test process died (unrecoverable panic)
 }
 
 type knownFinding struct {
@@ -82,6 +83,8 @@ type vtResult struct {
 	Rejected bool              `json:"rejected"`
 	Leaked   int               `json:"leaked"`
 	Known    []string          `json:"known"`
+	Runs     int               `json:"runs,omitempty"`
+	HookCalls int              `json:"hook_calls,omitempty"`
 }
 
 type candidate struct {
@@ -184,7 +187,7 @@ func (r *checkRun) execute() int {
 				if v.Model != nil {
 					vc := vtCase{ID: id, Harness: hr.h.fn.Name(), Inputs: r.withBounds(boundInputs(v.Model))}
 					if p.SchedPoints > 0 {
-						vc.Repeat = 400 // schedule-dependent: stress until it shows
+						vc.Repeat = 2000 // schedule-dependent: stress (with yield-point perturbation) until it shows
 					}
 					casesByDir[hr.h.dir] = append(casesByDir[hr.h.dir], vc)
 				}
@@ -283,6 +286,14 @@ func (r *checkRun) execute() int {
 		nr, have := native[c.caseID]
 		confirmed := false
 		detail := ""
+		if crash := r.crashed[c.h.dir]; crash != "" && !have && (c.v.Label == "no-panic" || c.v.Label == "deadlock") {
+			// the native process died; it reproduces this candidate if it died with the same panic message
+			msg := strings.TrimPrefix(c.v.Detail, "panic: ")
+			msg = strings.TrimPrefix(msg, "runtime error: ")
+			if msg != "" && strings.Contains(crash, strings.TrimSpace(msg)) {
+				return true, "native test process crashed: " + firstLine(crash)
+			}
+		}
 		if have && !nr.Rejected {
 			switch {
 			case c.v.Label == "no-panic":
@@ -368,6 +379,9 @@ func (r *checkRun) execute() int {
 			unconfirmed = append(unconfirmed, fmt.Sprintf("%s/%s did not reproduce natively (%s %s) inputs=%s trace=%v", c.h.fn.Name(), c.v.Label, c.v.Detail, detail, compact(c.v.Model), lastN(c.v.Trace, 3)))
 		} else {
 			fmt.Printf("  candidate (native check skipped): %s label=%s %s inputs=%s\n", c.h.fn.Name(), c.v.Label, c.v.Detail, compact(c.v.Model))
+			if r.verbose {
+				fmt.Printf("    schedule: %v\n", c.v.Trace)
+			}
 		}
 	}
 	// listed known findings that were expected in this property but no longer appear are simply not printed.
@@ -562,6 +576,17 @@ func (r *checkRun) runNative(casesByDir map[string][]vtCase) (map[string]vtResul
 		}
 		b, rerr := os.ReadFile(outF)
 		if rerr != nil {
+			if i := strings.Index(txt, "panic: "); i >= 0 || strings.Contains(txt, "fatal error: ") {
+				// the test process itself died: a panic in a goroutine other than the harness's cannot be recovered
+				if i < 0 {
+					i = strings.Index(txt, "fatal error: ")
+				}
+				if r.crashed == nil {
+					r.crashed = map[string]string{}
+				}
+				r.crashed[dir] = trimTo(txt[i:], 3000)
+				continue
+			}
 			return nil, fmt.Errorf("native run in %s produced no results: %v\n%s", dir, err, trimTo(txt, 3000))
 		}
 		var rs []vtResult
